@@ -56,10 +56,9 @@ def gen(rng: Any, tier: str, i: int) -> Any:
     period = rng.choice([0.5, 1.0, 2.0, 60.0, 0.1, 0.2, 0.3, 0.7])  # incl. periods that are not exact binary fractions
     align_off = rng.choice([0.0, 0.0, 0.25, -7.5, 1234.0]) if rng.random() < 0.6 else 0.0
     far = rng.random() < 0.15
-    if far:
-        # an alignment point two thousand years before the data (the documentation's datetime(1, 1, 1) style): 6e10 s
-        # take 36 bits before the binary point, float seconds resolve ~8 us there
-        align_off = -rng.choice([63113904000.0, 63113904000.25, 63838540800.0])
+    # (far: an alignment point two thousand years before the data - the documentation's datetime(1, 1, 1) style: 6e10 s
+    # take 36 bits before the binary point, float seconds resolve ~8 us there. The buffer is given an alignment point
+    # that is an even number of periods before the harness's, i.e. the same grid with the same slot parities.)
     eps = round(rng.choice([1e-6, 2e-6, 3e-6]) / period, 9)  # one to three microseconds, in periods
     ups = []
     newest = None
@@ -97,7 +96,8 @@ def gen(rng: Any, tier: str, i: int) -> Any:
             "tz_min": rng.choice([0, 0, 0, 330, -210, 345]),
             "dst": rng.choice([None, None, None, None, ["Europe/Berlin", "2024-03-31T01:00:00"], ["Europe/Berlin", "2024-10-27T01:00:00"],
                                ["America/New_York", "2024-11-03T06:00:00"]]),
-            "dst_align_in_zone": rng.random() < 0.6, "dst_all_in_zone": rng.random() < 0.5}
+            "dst_align_in_zone": rng.random() < 0.6, "dst_all_in_zone": rng.random() < 0.5,
+            "far_periods": 2 * round(rng.choice([63113904000.0, 31556952000.0, 63838540800.0]) / period / 2) if far else 0}
 
 
 def _slot(t: F) -> int:
@@ -177,6 +177,9 @@ def check(case: dict[str, Any], rec: Any) -> None:
         align_arg = align.astimezone(_tz(timedelta(minutes=tz_min)))
         zone = _tz(timedelta(minutes=tz_min))
         rec.bucket("timestamps-in-mixed-time-zones")
+    if case.get("far_periods"):
+        far_align = align - case["far_periods"] * per  # (UTC arithmetic: exact)
+        align_arg = far_align if align_arg.tzinfo is timezone.utc else far_align.astimezone(align_arg.tzinfo)
     rec.bucket("container:" + case["container"])
     container = [0.0] * cap if case["container"] == "list" else np.empty(cap)
     if case["container"] == "numpy":
@@ -230,7 +233,7 @@ def check(case: dict[str, Any], rec: Any) -> None:
         if val in ("inf", "-inf"):
             rec.bucket("infinite-value-written")
         w0 = {"history": hist[-12:], "cap": cap, "period": period, "update": [t, val], "slot": slot}
-        if case["align_off"] < -1e9:
+        if case.get("far_periods"):
             rec.bucket("alignment-point-two-thousand-years-back")
             if 1e-9 < abs(abs(t - math.floor(t)) - 0.5) < 1e-4:
                 rec.bucket("update-microseconds-off-the-half-period-point")
